@@ -3381,13 +3381,17 @@ sexp sexp_list_to_uvector_op(sexp ctx, sexp self, sexp_sint_t n, sexp etype, sex
   return res;
 }
 
-sexp sexp_read_one (sexp ctx, sexp in, sexp *shares);
+static sexp sexp_read_one_depth (sexp ctx, sexp in, sexp *shares, int depth);
+static sexp sexp_read_nested (sexp ctx, sexp in, int depth);
 
-sexp sexp_read_raw (sexp ctx, sexp in, sexp *shares) {
+/* the reader recurses on the C stack, so the nesting of a datum is bounded */
+static sexp sexp_read_raw_depth (sexp ctx, sexp in, sexp *shares, int depth) {
   char *str;
   int c1, c2, line;
   sexp tmp2;
   sexp_gc_var2(res, tmp);
+  if (depth > SEXP_MAX_READ_DEPTH)
+    return sexp_read_error(ctx, "SEXP_MAX_READ_DEPTH exceeded", SEXP_NULL, in);
   sexp_gc_preserve2(ctx, res, tmp);
 
  scan_loop:
@@ -3409,23 +3413,23 @@ sexp sexp_read_raw (sexp ctx, sexp in, sexp *shares) {
   case '\r':
     goto scan_loop;
   case '\'':
-    res = sexp_read_one(ctx, in, shares);
+    res = sexp_read_one_depth(ctx, in, shares, depth+1);
     if (! sexp_exceptionp(res))
       res = sexp_list2(ctx, sexp_global(ctx, SEXP_G_QUOTE_SYMBOL), res);
     break;
   case '`':
-    res = sexp_read_one(ctx, in, shares);
+    res = sexp_read_one_depth(ctx, in, shares, depth+1);
     if (! sexp_exceptionp(res))
       res = sexp_list2(ctx, sexp_global(ctx, SEXP_G_QUASIQUOTE_SYMBOL), res);
     break;
   case ',':
     if ((c1 = sexp_read_char(ctx, in)) == '@') {
-      res = sexp_read_one(ctx, in, shares);
+      res = sexp_read_one_depth(ctx, in, shares, depth+1);
       if (! sexp_exceptionp(res))
         res = sexp_list2(ctx, sexp_global(ctx, SEXP_G_UNQUOTE_SPLICING_SYMBOL), res);
     } else {
       sexp_push_char(ctx, c1, in);
-      res = sexp_read_one(ctx, in, shares);
+      res = sexp_read_one_depth(ctx, in, shares, depth+1);
       if (! sexp_exceptionp(res))
         res = sexp_list2(ctx, sexp_global(ctx, SEXP_G_UNQUOTE_SYMBOL), res);
     }
@@ -3436,7 +3440,7 @@ sexp sexp_read_raw (sexp ctx, sexp in, sexp *shares) {
   case '(':
     line = (sexp_port_sourcep(in) ? sexp_port_line(in) : -1);
     res = SEXP_NULL;
-    tmp = sexp_read_raw(ctx, in, shares);
+    tmp = sexp_read_raw_depth(ctx, in, shares, depth+1);
     while ((tmp != SEXP_EOF) && (tmp != SEXP_CLOSE) && (tmp != SEXP_RAWDOT)) {
       if (sexp_exceptionp(tmp)) {
         res = tmp;
@@ -3446,7 +3450,7 @@ sexp sexp_read_raw (sexp ctx, sexp in, sexp *shares) {
       if (sexp_port_sourcep(in) && (line >= 0))
         sexp_pair_source(res)
           = sexp_cons(ctx, sexp_port_name(in), sexp_make_fixnum(line));
-      tmp = sexp_read_raw(ctx, in, shares);
+      tmp = sexp_read_raw_depth(ctx, in, shares, depth+1);
     }
     if (! sexp_exceptionp(res)) {
       if (tmp == SEXP_RAWDOT) { /* dotted list */
@@ -3454,13 +3458,13 @@ sexp sexp_read_raw (sexp ctx, sexp in, sexp *shares) {
           res = sexp_read_error(ctx, "dot before any elements in list",
                                 SEXP_NULL, in);
         } else {
-          tmp = sexp_read_raw(ctx, in, shares);
+          tmp = sexp_read_raw_depth(ctx, in, shares, depth+1);
           if (sexp_exceptionp(tmp)) {
             res = tmp;
           } else if (tmp == SEXP_CLOSE) {
             res = sexp_read_error(ctx, "no final element in list after dot",
                                   SEXP_NULL, in);
-          } else if (sexp_read_raw(ctx, in, shares) != SEXP_CLOSE) {
+          } else if (sexp_read_raw_depth(ctx, in, shares, depth+1) != SEXP_CLOSE) {
             res = sexp_read_error(ctx, "multiple tokens in dotted tail",
                                   SEXP_NULL, in);
           } else if (tmp == SEXP_RAWDOT) {
@@ -3496,7 +3500,7 @@ sexp sexp_read_raw (sexp ctx, sexp in, sexp *shares) {
       for (c1=' '; isspace(c1); c1=sexp_read_char(ctx, in))
         ;
       if (c1=='#') {
-        tmp = sexp_read_one(ctx, in, shares);
+        tmp = sexp_read_one_depth(ctx, in, shares, depth+1);
         if (sexp_symbolp(tmp) && tmp == sexp_intern(ctx, "t", 1))
           tmp = SEXP_TRUE;
         else if (!sexp_fixnump(tmp))
@@ -3508,8 +3512,8 @@ sexp sexp_read_raw (sexp ctx, sexp in, sexp *shares) {
       }
       if (!sexp_exceptionp(tmp)) tmp = sexp_lookup_type(ctx, res, tmp);
       if (tmp && sexp_typep(tmp) && sexp_type_tag(tmp) == SEXP_STRING_CURSOR) {
-        res = sexp_make_string_cursor(sexp_unbox_fixnum(sexp_read_raw(ctx, in, shares)));
-        tmp2 = sexp_read_raw(ctx, in, shares);
+        res = sexp_make_string_cursor(sexp_unbox_fixnum(sexp_read_raw_depth(ctx, in, shares, depth+1)));
+        tmp2 = sexp_read_raw_depth(ctx, in, shares, depth+1);
         if (tmp2 != SEXP_CLOSE_BRACE)
           res = sexp_read_error(ctx, "expected closing brace in string-cursor, got", tmp2, in);
       } else if (tmp && sexp_typep(tmp) && sexp_type_print(tmp)
@@ -3517,7 +3521,7 @@ sexp sexp_read_raw (sexp ctx, sexp in, sexp *shares) {
           && sexp_opcode_func(sexp_type_print(tmp)) == (sexp_proc1)sexp_write_simple_object) {
         res = sexp_alloc_tagged(ctx, sexp_type_size_base(tmp), sexp_type_tag(tmp));
         for (c1=0; ; c1++) {
-          tmp2 = sexp_read_raw(ctx, in, shares);
+          tmp2 = sexp_read_raw_depth(ctx, in, shares, depth+1);
           if (sexp_exceptionp(tmp2)) {
             res = tmp2;
             break;
@@ -3569,7 +3573,7 @@ sexp sexp_read_raw (sexp ctx, sexp in, sexp *shares) {
 #endif
       break;
     case 'i': case 'I':
-      res = sexp_read(ctx, in);
+      res = sexp_read_nested(ctx, in, depth+1);
       if (sexp_exact_integerp(res))
         res = sexp_make_flonum(ctx, sexp_unbox_fixnum(res));
 #if SEXP_USE_RATIOS
@@ -3619,7 +3623,7 @@ sexp sexp_read_raw (sexp ctx, sexp in, sexp *shares) {
       c2 = sexp_resolve_uniform_type(sexp_tolower(c1), res);
       if (sexp_exceptionp(res)) {
       } else if (c2 != SEXP_NOT_A_UNIFORM_TYPE) {
-        tmp = sexp_read_one(ctx, in, shares);
+        tmp = sexp_read_one_depth(ctx, in, shares, depth+1);
         res = sexp_list_to_uvector(ctx, sexp_make_fixnum(c2), tmp);
         if (!sexp_exceptionp(res)) sexp_immutablep(res) = 1;
       } else {
@@ -3661,7 +3665,7 @@ sexp sexp_read_raw (sexp ctx, sexp in, sexp *shares) {
           sexp_vector_data(*shares)[c2] = sexp_make_reader_label(c2);
           if (tmp > sexp_vector_data(*shares)[sexp_vector_length(*shares)-1])
             sexp_vector_data(*shares)[sexp_vector_length(*shares)-1] = tmp;
-          res = sexp_read_one(ctx, in, shares);
+          res = sexp_read_one_depth(ctx, in, shares, depth+1);
           sexp_vector_data(*shares)[c2] = res;
           if (sexp_reader_labelp(res))
             res = sexp_read_error(ctx, "self reader label reference", tmp, in);
@@ -3674,7 +3678,7 @@ sexp sexp_read_raw (sexp ctx, sexp in, sexp *shares) {
       break;
 #endif
     case ';':
-      tmp = sexp_read_one(ctx, in, shares);   /* discard */
+      tmp = sexp_read_one_depth(ctx, in, shares, depth+1);   /* discard */
       if (sexp_exceptionp(tmp))
         res = tmp;
       else
@@ -3768,7 +3772,7 @@ sexp sexp_read_raw (sexp ctx, sexp in, sexp *shares) {
       break;
     case '(':
       sexp_push_char(ctx, c1, in);
-      res = sexp_read_one(ctx, in, shares);
+      res = sexp_read_one_depth(ctx, in, shares, depth+1);
       if (sexp_not(sexp_listp(ctx, res))) {
         if (! sexp_exceptionp(res)) {
           res = sexp_read_error(ctx, "dotted list not allowed in vector syntax",
@@ -3780,23 +3784,23 @@ sexp sexp_read_raw (sexp ctx, sexp in, sexp *shares) {
       }
       break;
     case '\'':
-      res = sexp_read_one(ctx, in, shares);
+      res = sexp_read_one_depth(ctx, in, shares, depth+1);
       if (! sexp_exceptionp(res))
 	res = sexp_list2(ctx, sexp_global(ctx, SEXP_G_SYNTAX_SYMBOL), res);
       break;
     case '`':
-      res = sexp_read_one(ctx, in, shares);
+      res = sexp_read_one_depth(ctx, in, shares, depth+1);
       if (! sexp_exceptionp(res))
 	res = sexp_list2(ctx, sexp_global(ctx, SEXP_G_QUASISYNTAX_SYMBOL), res);
       break;
     case ',':
       if ((c1 = sexp_read_char(ctx, in)) == '@') {
-	res = sexp_read_one(ctx, in, shares);
+	res = sexp_read_one_depth(ctx, in, shares, depth+1);
 	if (! sexp_exceptionp(res))
 	  res = sexp_list2(ctx, sexp_global(ctx, SEXP_G_UNSYNTAX_SPLICING_SYMBOL), res);
       } else {
 	sexp_push_char(ctx, c1, in);
-	res = sexp_read_one(ctx, in, shares);
+	res = sexp_read_one_depth(ctx, in, shares, depth+1);
 	if (! sexp_exceptionp(res))
 	  res = sexp_list2(ctx, sexp_global(ctx, SEXP_G_UNSYNTAX_SYMBOL), res);
       }
@@ -3940,8 +3944,12 @@ sexp sexp_read_raw (sexp ctx, sexp in, sexp *shares) {
   return res;
 }
 
-sexp sexp_read_one (sexp ctx, sexp in, sexp *shares) {
-  sexp res = sexp_read_raw(ctx, in, shares);
+sexp sexp_read_raw (sexp ctx, sexp in, sexp *shares) {
+  return sexp_read_raw_depth(ctx, in, shares, 0);
+}
+
+static sexp sexp_read_one_depth (sexp ctx, sexp in, sexp *shares, int depth) {
+  sexp res = sexp_read_raw_depth(ctx, in, shares, depth);
   if (res == SEXP_CLOSE)
     res = sexp_read_error(ctx, "too many ')'s", SEXP_NULL, in);
 #if SEXP_USE_OBJECT_BRACE_LITERALS
@@ -3953,13 +3961,17 @@ sexp sexp_read_one (sexp ctx, sexp in, sexp *shares) {
   return res;
 }
 
-sexp sexp_read_op (sexp ctx, sexp self, sexp_sint_t n, sexp in) {
+sexp sexp_read_one (sexp ctx, sexp in, sexp *shares) {
+  return sexp_read_one_depth(ctx, in, shares, 0);
+}
+
+static sexp sexp_read_at_depth (sexp ctx, sexp self, sexp_sint_t n, sexp in, int depth) {
   sexp res;
   sexp_gc_var1(shares);
   sexp_assert_type(ctx, sexp_iportp, SEXP_IPORT, in);
   sexp_check_block_port(ctx, in, 0);
   sexp_gc_preserve1(ctx, shares);
-  res = sexp_read_one(ctx, in, &shares);
+  res = sexp_read_one_depth(ctx, in, &shares, depth);
 #if SEXP_USE_READER_LABELS
   if (!sexp_exceptionp(res) && sexp_vectorp(shares)) {
     res = sexp_fill_reader_labels(ctx, res, shares, 1);  /* mark=1 */
@@ -3969,6 +3981,15 @@ sexp sexp_read_op (sexp ctx, sexp self, sexp_sint_t n, sexp in) {
   sexp_maybe_unblock_port(ctx, in);
   sexp_gc_release1(ctx);
   return res;
+}
+
+/* a datum read on behalf of a prefix (#e, #i) of an enclosing one */
+static sexp sexp_read_nested (sexp ctx, sexp in, int depth) {
+  return sexp_read_at_depth(ctx, NULL, 1, in, depth);
+}
+
+sexp sexp_read_op (sexp ctx, sexp self, sexp_sint_t n, sexp in) {
+  return sexp_read_at_depth(ctx, self, n, in, 0);
 }
 
 sexp sexp_read_from_string (sexp ctx, const char *str, sexp_sint_t len) {
